@@ -293,3 +293,35 @@ def replay_f(pid, path):
         common.validate_f(chk, {setno: os.path.join(out, "replay_%d.ndjson" % setno)}, nproc=1,
                           key_of=lambda m: rep.get("key", "replay"))
     return chk.finish()
+
+
+DONE_RE = re.compile(r'<<\s*"TRACE_DONE",\s*(\d+),(.*?)>>\s*>>|<<\s*"TRACE_DONE",\s*(\d+),([^<]*(?:<<[^>]*>>[^<]*)*)>>', re.S)
+
+
+def parse_done(out):
+    """Parse the (possibly line-wrapped) TRACE_DONE tuple printed by the trace specifications.
+    Returns dict(n=consumed events, lists={name: [indices]}, nums={name: int}) or None."""
+    i = out.find('"TRACE_DONE"')
+    if i < 0:
+        return None
+    j = out.find("Model checking completed", i)
+    txt = out[i:j if j > 0 else len(out)]
+    txt = re.sub(r"\s+", " ", txt)
+    m = re.match(r'"TRACE_DONE", (\d+)', txt)
+    if not m:
+        return None
+    res = dict(n=int(m.group(1)), lists={}, nums={})
+    for name, body in re.findall(r'"(\w+)", <<([^<>]*)>>', txt):
+        res["lists"][name] = [int(x) for x in re.findall(r"-?\d+", body)]
+    for name, val in re.findall(r'"(\w+)", (\d+)', txt):
+        res["nums"][name] = int(val)
+    return res
+
+
+def mismatch_infos(out):
+    """{event index: info text} from the (possibly line-wrapped) MISMATCH / MAGNITUDE tuples."""
+    infos = {}
+    flat = out
+    for m in re.finditer(r'<<\s*"(MISMATCH|MAGNITUDE)",\s*(\d+),(.*?)(?=\n<<|\nModel checking|\Z)', flat, re.S):
+        infos[(m.group(1), int(m.group(2)))] = re.sub(r"\s+", " ", m.group(3)).strip()[:1500]
+    return infos
